@@ -81,6 +81,38 @@ def elig_job(lo, hi):
     return res
 
 
+def pseudo_elig_job():
+    """Pseudo-instructions with literal operands whose documented expansion is the expansion of a legal RVC
+    instruction (nop, mv, li with a 6-bit value, ret, jr, jalr) must come out in 16 bits too."""
+    a = env.load_asm()
+    res = env.Result()
+    lines = ['nop', 'ret']
+    for rd in range(1, 32):
+        lines += ['jr x%d' % rd, 'jalr x%d' % rd]
+        for rs in (1, 2, 8, 15, 16, 31, rd):
+            lines.append('mv x%d, x%d' % (rd, rs))
+        for v in (-32, -1, 0, 1, 5, 31):
+            lines.append('li x%d, %d' % (rd, v))
+    src = '\n'.join(lines) + '\n'
+    res.evaluations = len(lines)
+    try:
+        out = bytes(a.assemble(src, compress=True))
+    except Exception as e:
+        res.fail('elig:pseudo:refused', 'batch of pseudo-instructions refused with -c: %s' % str(e)[-200:], {'kind': 'elig', 'source': src[:200]})
+        return res
+    off = 0
+    for line in lines:
+        ln, cls, mn, f, got = rvref.decode_at(out, off)
+        if ln != 2:
+            res.fail('elig:pseudo:%s' % line.split()[0], '%r expands to the expansion of a legal RVC instruction but is emitted in %d bytes with -c' % (line, ln),
+                     {'kind': 'elig', 'source': line + '\n'})
+        else:
+            res.nontrivial_count += 1
+        off += ln if ln else 4
+    res.sample({'eligible_pseudo': lines[5]})
+    return res
+
+
 def judge(prog, res):
     a = _prog.get_asm()
     src = prog.text()
@@ -110,6 +142,7 @@ def run(tier):
     except AssertionError as e:
         raise env.HarnessError('rvref self test failed: %r' % (e,))
     chk.merge(env.run_shards(elig_job, [(a, a + 1024) for a in range(0, 0x10000, 1024)]))
+    chk.merge(env.run_shards(pseudo_elig_job, [()]))
     elig = chk.res.evaluations
     progcheck.run_sharded(chk, PROP, PROFILE, N[tier], 'judge', __name__)
     chk.exhaustive = True
